@@ -1149,6 +1149,8 @@ struct Case<'a> {
     family: &'a str,
     /// short description of the program's shape, used in violation keys
     shape: String,
+    /// full description (flags, forms, trailer), for the replay file
+    detail: String,
     program: Program,
 }
 
@@ -1168,10 +1170,9 @@ impl Desc {
     }
     fn build(&self) -> Case<'static> {
         match self {
-            Desc::A(f, specs) => Case { family: f, shape: shape_of(specs), program: build_a(specs) },
+            Desc::A(f, specs) => Case { family: f, shape: shape_of(specs), detail: detail_of(specs), program: build_a(specs) },
             Desc::B { ls, pre, latn, trk, trailer } => {
                 let n = |v: &Vec<Item>| if v.is_empty() { "0" } else { "+" };
-                let _ = trailer;
                 let shape = format!(
                     "ls{ls}:pre{}:latn{}:TRK{}",
                     n(pre),
@@ -1186,6 +1187,7 @@ impl Desc {
                 );
                 Case {
                     family: "B",
+                    detail: format!("{self:?}"),
                     shape,
                     program: build_b(*ls, pre, latn.as_deref(), trk.as_ref().map(|(e, t)| (*e, t.as_slice())), *trailer),
                 }
@@ -1255,7 +1257,7 @@ fn evaluate(case: &Case, strings: &[Vec<Gid>], gm: &GlyphMap, st: &mut Stats, ve
                 st.violations.push((
                     key,
                     format!("fea-rs panicked on a program of the supported subset: {why}"),
-                    json!({"fea": fea, "program": case.program, "family": case.family, "shape": case.shape}),
+                    json!({"fea": fea, "program": case.program, "family": case.family, "shape": case.shape, "detail": case.detail}),
                 ));
                 return true;
             }
@@ -1274,7 +1276,7 @@ fn evaluate(case: &Case, strings: &[Vec<Gid>], gm: &GlyphMap, st: &mut Stats, ve
             st.violations.push((
                 format!("{}:{}:unreadable-output", case.family, case.shape),
                 format!("compiled tables do not parse: {e}"),
-                json!({"fea": fea, "program": case.program, "family": case.family, "shape": case.shape}),
+                json!({"fea": fea, "program": case.program, "family": case.family, "shape": case.shape, "detail": case.detail}),
             ));
             return true;
         }
@@ -1301,7 +1303,7 @@ fn evaluate(case: &Case, strings: &[Vec<Gid>], gm: &GlyphMap, st: &mut Stats, ve
                         st.violations.push((
                             format!("{}:{}:langsys-set:{table}", case.family, case.shape),
                             what,
-                            json!({"fea": fea, "program": case.program, "family": case.family, "shape": case.shape}),
+                            json!({"fea": fea, "program": case.program, "family": case.family, "shape": case.shape, "detail": case.detail}),
                         ));
                         failed = true;
                     }
@@ -1422,7 +1424,7 @@ fn evaluate(case: &Case, strings: &[Vec<Gid>], gm: &GlyphMap, st: &mut Stats, ve
                             "{script}/{lang} input '{}': the source rules give '{}', the compiled tables give '{}' (otlayout and the second table reader agree)",
                             show(s), show_shaped(&want), show_shaped(&got)
                         ),
-                        json!({"fea": fea, "program": case.program, "family": case.family, "shape": case.shape,
+                        json!({"fea": fea, "program": case.program, "family": case.family, "shape": case.shape, "detail": case.detail,
                                "script": script, "lang": lang, "input": s}),
                     ));
                 }
@@ -1440,7 +1442,7 @@ fn evaluate(case: &Case, strings: &[Vec<Gid>], gm: &GlyphMap, st: &mut Stats, ve
         st.combos.insert(kinds.join("+"));
     }
     if st.samples.len() < 3 || (st.programs % 4001 == 0 && st.samples.len() < 8) {
-        st.samples.push(json!({"family": case.family, "shape": case.shape, "fea": fea}));
+        st.samples.push(json!({"family": case.family, "shape": case.shape, "detail": case.detail, "fea": fea}));
     }
     failed
 }
@@ -1465,7 +1467,15 @@ struct Plan {
     max_len_b: usize,
 }
 
+/// Coarse identity of a family-A program for violation keys: the lookup types in order,
+/// and whether any lookup ignores marks. Flags per lookup and forms are in `detail_of`.
 fn shape_of(specs: &[LSpec]) -> String {
+    let kinds: Vec<&str> = specs.iter().map(|s| s.kind().name()).collect();
+    let im = specs.iter().any(|s| s.flag & FLAG_IGNORE_MARKS != 0);
+    format!("{}{}", kinds.join("+"), if im { ":ignoremarks" } else { "" })
+}
+
+fn detail_of(specs: &[LSpec]) -> String {
     specs
         .iter()
         .map(|s| {
@@ -1668,6 +1678,7 @@ fn replay(path: &Path, rep_id: &str) -> ! {
     let case = Case {
         family: "replay",
         shape: r["shape"].as_str().unwrap_or("").to_string(),
+        detail: r["detail"].as_str().unwrap_or("").to_string(),
         program,
     };
     let mut st = Stats::default();
